@@ -8,6 +8,13 @@ seed, pid = sys.argv[1], sys.argv[2]
 tier = sys.argv[3] if len(sys.argv) > 3 else "quick"
 wt = "/tmp/evalwt_%s_%d" % (pid, os.getpid())
 out = {"seed": seed, "property": pid, "tier": tier}
+_prev = {}
+if os.path.exists(os.path.join(seed, "eval.json")):
+    try:
+        _prev = json.load(open(os.path.join(seed, "eval.json")))
+    except Exception:
+        _prev = {}
+out["history"] = list(_prev.get("history", []))
 
 
 def sh(cmd, cwd=None, env=None, timeout=3600):
@@ -44,6 +51,8 @@ try:
     lines = [l for l in o.splitlines() if l.startswith(("VIOLATION", "HARNESS-ERROR", "KNOWN-FINDING", pid))]
     out["check_lines"] = lines[:6]
     out["detected"] = rc == 1
+    _c = subprocess.run("git -C /verif log --format=%h -1", shell=True, capture_output=True, text=True).stdout.strip()
+    out["history"].append("checks at commit %s: %s" % (_c, "DETECTED" if rc == 1 else ("harness error" if rc == 2 else "missed")))
     # keep one replay transcript for the record
     for l in lines:
         if l.startswith("VIOLATION"):
